@@ -12,12 +12,14 @@ EXTENDS Naturals, Sequences, FiniteSets, TLC
 CONSTANTS JobSlot,       \* how many jobs may be submitted: 1..JobSlot identify them in submission order
           DS,            \* dataset ids
           Bytes,         \* result payloads
-          TS,            \* timestamps of progress reports; the progress value of timestamp t is ProgOf(t)
+          TS,            \* timestamps of progress reports (subset of 1..5); the progress value of timestamp t is ProgOf(t)
           StoresLastSeen \* maybe_update records the timestamp it accepted (design; FALSE = the code before the fix)
 
 Started  == "0.00"
 NoResult == "<none>"
-ProgOf(t) == ToString(t) \o "0.00"
+\* different timestamps MAY carry the same progress value (the same percentage reported twice)
+ProgTable == <<"10.00", "50.00", "10.00", "50.00", "90.00">>
+ProgOf(t) == ProgTable[t]
 
 VARIABLES n,          \* jobs submitted so far (ids 1..n)
           progress,   \* [1..JobSlot -> progress string]
